@@ -24,7 +24,7 @@ RULE = ("cases = pair of encoded arrays of equal length (all pairs over 3 letter
         "side, unary ufuncs, sum/any/all/max/mean/histogram, concatenate; distinct = distinct (classes, op, dtypes); "
         "non-trivial = length >= 2")
 EXHAUSTIVE = {"quick": False, "thorough": False}
-CORRESPONDENCE_ONLY = ["result dtype (numpy promotion)", "any/all/max/mean/histogram (numpy on run values)", "float operands"]
+CORRESPONDENCE_ONLY = ["result dtype (numpy promotion)", "mean (float division)", "dtype of sum / histogram weights", "float operands"]
 ASSUMPTIONS = ["numpy ufunc inner loops are position-independent"]
 
 BIN = ["add", "subtract", "multiply", "maximum", "minimum", "less", "equal", "not_equal", "bitwise_and", "bitwise_or", "bitwise_xor"]
@@ -195,6 +195,8 @@ def lean_request(p):
         return {"op": "RL.binop", "kind": k, "a": p["a"], "c": p["c"], "f": p["f"]}
     if k == "sum":
         return {"op": "RL.binop", "kind": "sum", "a": p["a"], "f": "add"}
+    if k == "reduce" and p["f"] == "histogram":
+        return {"op": "RL.binop", "kind": "hist", "a": p["a"], "f": "add"}
     if k == "concat":
         return {"op": "RL.binop", "kind": "concat", "a": [], "parts": p["parts"], "f": "add"}
     return None
@@ -207,6 +209,8 @@ def decode_lean(p, resp):
             return refuse()
         if p["kind"] == "sum":
             return canon(int(j))
+        if p["kind"] == "reduce":       # histogram with one bin per letter 0, 1, 2
+            return canon((np.array(j, dtype=np.int64), np.array([0.0, 1.0, 2.0, 3.0])))
         arr = np.array(j["decoded"], dtype=np.int64)
         if bool_out:
             arr = arr.astype(bool)
